@@ -222,8 +222,27 @@ def ones_fill(fn):
 
 
 # ------------------------------------------------------------------ the basis functions
+def order_guard(fn, prefix, out):
+    """if m < K: raise ValueError(...)  -> g_<prefix>_min_order = K (orders below K are refused)"""
+    found = [n for n in fn.body if isinstance(n, ast.If) and any(isinstance(x, ast.Raise) for x in ast.walk(n))]
+    if any(isinstance(x, ast.Raise) for n in fn.body if n not in found for x in ast.walk(n)):
+        raise Unrecognised('raise outside the order guard in %s' % fn.name)
+    if len(found) != 1:
+        raise Unrecognised('%d order guards in %s' % (len(found), fn.name))
+    g = found[0]
+    if not (len(g.test.ops) == 1 and isinstance(g.test.ops[0], (ast.Lt, ast.LtE)) and isinstance(g.test.comparators[0], ast.Constant)
+            and isinstance(g.test.comparators[0].value, int) and len(g.body) == 1 and isinstance(g.body[0], ast.Raise)
+            and not g.orelse and isinstance(g.body[0].exc, ast.Call) and ast.unparse(g.body[0].exc.func) == 'ValueError'):
+        raise Unrecognised('order guard of %s: %s' % (fn.name, ast.unparse(g.test)))
+    k = g.test.comparators[0].value + (1 if isinstance(g.test.ops[0], ast.LtE) else 0)
+    if k < 0:
+        raise Unrecognised('negative order guard')
+    out.append(defn('g_%s_min_order' % prefix, [], 'nat', '%d%%nat' % k, g.lineno))
+
+
 def basis_simple(fn, prefix, out):
     """flegendre / fchebyshev / fpoly: ones; if m >= 2: leg[1,:] = x; if m >= 3: for k in range(2, m): leg[k,:] = E"""
+    order_guard(fn, prefix, out)
     ones_fill(fn)
     i2 = the_if(fn, 'm >= 2')
     a1 = the_assign(i2, 'leg[1, :]')
@@ -246,6 +265,7 @@ def basis_simple(fn, prefix, out):
 
 
 def basis_split(fn, out):
+    order_guard(fn, 'split', out)
     ones_fill(fn)
     rows0 = assigns(fn, 'leg[0, :]')
     texts = set()
@@ -326,6 +346,184 @@ def traceset(tree, out):
     i = the_if(f, "'xjumplo' in kwargs")
     if not any(ast.unparse(s) == 'do_jump = True' for s in i.body):
         raise Unrecognised('do_jump = True under xjumplo')
+
+
+GF = {'flegendre': 'GLegendre', 'fchebyshev': 'GChebyshev', 'fpoly': 'GPoly', 'fchebyshev_split': 'GChebSplit'}
+GNAME = {'legendre': 'GLegendre', 'chebyshev': 'GChebyshev', 'poly': 'GPoly', 'chebyshev_split': 'GChebSplit'}
+
+
+def kw_default(f, key, target, wrappers):
+    """if '<key>' in kwargs: <target> = W(kwargs['<key>']) else: <target> = DEFAULT   -> DEFAULT node"""
+    i = the_if(f, "'%s' in kwargs" % key)
+    body = [x for x in i.body if ast.unparse(x) != 'do_jump = True']
+    if len(body) != 1 or len(i.orelse) != 1:
+        raise Unrecognised('keyword %s: shape' % key)
+    b, e = body[0], i.orelse[0]
+    for st in (b, e):
+        if not (isinstance(st, ast.Assign) and len(st.targets) == 1 and ast.unparse(st.targets[0]) == target):
+            raise Unrecognised('keyword %s: target' % key)
+    v = b.value
+    if isinstance(v, ast.Call) and len(v.args) == 1 and not v.keywords and ast.unparse(v.func) in wrappers:
+        v = v.args[0]
+    if ast.unparse(v) != "kwargs['%s']" % key:
+        raise Unrecognised('keyword %s: value %s' % (key, ast.unparse(b.value)))
+    return e.value
+
+
+def dict_map(node, what):
+    if not isinstance(node, ast.Dict):
+        raise Unrecognised('%s is not a dict display' % what)
+    d = {}
+    for k, v in zip(node.keys, node.values):
+        if not (isinstance(k, ast.Constant) and isinstance(k.value, str) and isinstance(v, ast.Name) and v.id in GF):
+            raise Unrecognised('%s entry %s' % (what, ast.unparse(k) if k else k))
+        if k.value in d:
+            raise Unrecognised('%s: duplicate key %s' % (what, k.value))
+        d[k.value] = GF[v.id]
+    return d
+
+
+def traceset_init(tree, out):
+    c = 'TraceSet'
+    cls = next(n for n in tree.body if isinstance(n, ast.ClassDef) and n.name == c)
+    f = find_def(tree, '__init__', c)
+    top = [s for s in f.body if not (isinstance(s, ast.Expr) and isinstance(s.value, ast.Constant))]
+    if len(top) != 1 or not isinstance(top[0], ast.If) or ast.unparse(top[0].test) != 'len(args) == 1 and isinstance(args[0], FITS_rec)':
+        raise Unrecognised('__init__ skeleton')
+    fits = top[0]
+    # ---- the FITS-record constructor (verified text; the trace-set record of the model carries these fields)
+    want = ["self.func = args[0]['FUNC'][0]", "self.xmin = args[0]['XMIN'][0]", "self.xmax = args[0]['XMAX'][0]",
+            "self.coeff = args[0]['COEFF'][0]", 'self.nTrace = self.coeff.shape[0]', 'self.ncoeff = self.coeff.shape[1]']
+    got = [ast.unparse(x) for x in fits.body]
+    if got[:6] != want or not isinstance(fits.body[6], ast.If) or ast.unparse(fits.body[6].test) != "'XJUMPLO' in args[0].dtype.names":
+        raise Unrecognised('FITS constructor')
+    j = fits.body[6]
+    if [ast.unparse(x) for x in j.body] != ["self.xjumplo = args[0]['XJUMPLO'][0]", "self.xjumphi = args[0]['XJUMPHI'][0]",
+                                            "self.xjumpval = args[0]['XJUMPVAL'][0]"] or \
+            [ast.unparse(x) for x in j.orelse] != ['self.xjumplo = None', 'self.xjumphi = None', 'self.xjumpval = None']:
+        raise Unrecognised('FITS constructor jump fields')
+    out.append(defn('g_fits_constructor_verified', [], 'bool', 'true', fits.lineno))
+    if len(fits.orelse) != 1 or not isinstance(fits.orelse[0], ast.If) or ast.unparse(fits.orelse[0].test) != 'len(args) == 2':
+        raise Unrecognised('__init__ second branch')
+    fit = fits.orelse[0]
+    scope = ast.Module(body=fit.body, type_ignores=[])
+    heads = [ast.unparse(x) for x in fit.body[:3]]
+    if heads != ['xpos = args[0]', 'ypos = args[1]', 'self.nTrace = xpos.shape[0]']:
+        raise Unrecognised('__init__ positional arguments')
+    # ---- keyword defaults
+    d = kw_default(scope, 'invvar', 'invvar', ())
+    if ast.unparse(d) != 'np.ones(xpos.shape, dtype=xpos.dtype)':
+        raise Unrecognised('default invvar')
+    out.append(defn('g_default_invvar', [], 'Q', '1', d.lineno))
+    d = kw_default(scope, 'func', 'self.func', ())
+    if not (isinstance(d, ast.Constant) and d.value in GNAME):
+        raise Unrecognised('default func')
+    out.append(defn('g_default_func', [], 'gfunc', GNAME[d.value], d.lineno))
+    for key, name, typ in (('ncoeff', 'self.ncoeff', 'nat'), ('maxiter', 'maxiter', 'Z')):
+        d = kw_default(scope, key, name, ('int',))
+        if not (isinstance(d, ast.Constant) and isinstance(d.value, int) and not isinstance(d.value, bool) and d.value >= 0):
+            raise Unrecognised('default %s' % key)
+        out.append(defn('g_default_%s' % key, [], typ, '%d%%%s' % (d.value, typ), d.lineno))
+    for key in ('xmin', 'xmax'):
+        d = kw_default(scope, key, 'self.' + key, ('np.float64', 'float'))
+        ext = {'xpos.min()': 'ExtMin', 'xpos.max()': 'ExtMax'}.get(ast.unparse(d))
+        if ext is None:
+            raise Unrecognised('default %s: %s' % (key, ast.unparse(d)))
+        out.append(defn('g_%s_default' % key, [], 'extremum', ext, d.lineno))
+    d = kw_default(scope, 'inmask', 'inmask', ())
+    if ast.unparse(d) != 'np.ones(xpos.shape, dtype=bool)':
+        raise Unrecognised('default inmask')
+    out.append(defn('g_default_inmask', [], 'bool', 'true', d.lineno))
+    for key in ('xjumplo', 'xjumphi', 'xjumpval'):
+        d = kw_default(scope, key, 'self.' + key, ('np.float64', 'float'))
+        if ast.unparse(d) != 'None':
+            raise Unrecognised('default %s' % key)
+    # ---- the loop over the traces
+    loop = the_for(scope, 'iTrace', 'range(self.nTrace)')
+    body = loop.body
+    texts = [ast.unparse(x) for x in body]
+    if len(body) != 9 or not isinstance(body[5], ast.While):
+        raise Unrecognised('trace loop skeleton (%d statements)' % len(body))
+    if texts[1] != 'iIter = 0' or texts[2] != 'qdone = False' or texts[4] != 'thismask = tempivar > 0' or \
+            texts[6:] != ['self.yfit[iTrace, :] = ycurfit', 'self.coeff[iTrace, :] = res', 'self.outmask[iTrace, :] = thismask']:
+        raise Unrecognised('trace loop statements')
+    a = body[3]
+    if not (isinstance(a, ast.Assign) and ast.unparse(a.targets[0]) == 'tempivar'):
+        raise Unrecognised('tempivar')
+    out.append(defn('g_tempivar', ['iv m01 : Q'], 'Q',
+                    expr(a.value, {'invvar[iTrace, :]': 'iv', 'inmask[iTrace, :]': 'm01'}), a.lineno))
+    out.append(defn('g_iiter0', [], 'Z', '0%Z', body[1].lineno))
+    out.append(defn('g_qdone0', [], 'bool', 'false', body[2].lineno))
+    w = body[5]
+    t = w.test
+    if not (isinstance(t, ast.BoolOp) and isinstance(t.op, ast.And) and len(t.values) == 2 and ast.unparse(t.values[0]) == 'not qdone'
+            and isinstance(t.values[1], ast.Compare) and len(t.values[1].ops) == 1 and ast.unparse(t.values[1].left) == 'iIter'
+            and ast.unparse(t.values[1].comparators[0]) == 'maxiter' and isinstance(t.values[1].ops[0], (ast.LtE, ast.Lt))) or w.orelse:
+        raise Unrecognised('while test %s' % ast.unparse(t))
+    cmp_ = 'Z.leb' if isinstance(t.values[1].ops[0], ast.LtE) else 'Z.ltb'
+    out.append(defn('g_loop_continue', ['qdone : bool', 'iiter maxiter : Z'], 'bool',
+                    '(andb (negb qdone) (%s iiter maxiter))' % cmp_, w.lineno))
+    if len(w.body) != 3:
+        raise Unrecognised('while body')
+    fcall, rcall, inc = w.body
+    if not (isinstance(fcall, ast.Assign) and ast.unparse(fcall.targets[0]).strip('()') == 'res, ycurfit' and isinstance(fcall.value, ast.Call)
+            and ast.unparse(fcall.value.func) == 'func_fit'
+            and [ast.unparse(x) for x in fcall.value.args] == ['xvec', 'ypos[iTrace, :]', 'self.ncoeff']
+            and sorted(k.arg for k in fcall.value.keywords) == ['function_name', 'invvar']):
+        raise Unrecognised('func_fit call in the rejection loop')
+    kws = {k.arg: ast.unparse(k.value) for k in fcall.value.keywords}
+    if kws['function_name'] != 'self.func':
+        raise Unrecognised('function_name passed to func_fit')
+    wt = {'tempivar': 'WTempivar', 'tempivar * thismask': 'WMasked', 'thismask * tempivar': 'WMasked'}.get(kws['invvar'])
+    if wt is None:
+        raise Unrecognised('weights passed to func_fit: %s' % kws['invvar'])
+    out.append(defn('g_fit_weight', [], 'fitweight', wt, fcall.lineno))
+    # djs_reject without any rejection criterion (lower / upper / maxdev / maxrej / grow / inmask / sticky absent):
+    # the model of that call is "nothing rejected, done"
+    if ast.unparse(rcall).replace('(thismask, qdone) =', 'thismask, qdone =') != \
+            'thismask, qdone = djs_reject(ypos[iTrace, :], ycurfit, invvar=tempivar)':
+        raise Unrecognised('djs_reject call: %s' % ast.unparse(rcall))
+    out.append(defn('g_reject_without_criteria', [], 'bool', 'true', rcall.lineno))
+    if ast.unparse(inc) != 'iIter += 1':
+        raise Unrecognised('iteration counter')
+    out.append(defn('g_iiter_step', [], 'Z', '1%Z', inc.lineno))
+    # ---- the function tables
+    fm = [n for n in cls.body if isinstance(n, ast.Assign) and ast.unparse(n.targets[0]) == '_func_map']
+    if len(fm) != 1:
+        raise Unrecognised('_func_map')
+    d = dict_map(fm[0].value, '_func_map')
+    if any(k not in GNAME for k in d):
+        raise Unrecognised('_func_map keys %s' % sorted(d))
+    out.append(defn('g_xy_func_map', ['name : gfunc'], 'option gfunc',
+                    'match name with %s end' % ' | '.join('%s => %s' % (GNAME[k], 'Some ' + d[k] if k in d else 'None') for k in GNAME),
+                    fm[0].lineno))
+    a = the_assign(f, 'legarr') if False else None
+    x = the_assign(find_def(tree, 'xy', c), 'legarr')
+    if ast.unparse(x.value) != 'self._func_map[self.func](xvec, self.ncoeff)':
+        raise Unrecognised('legarr in xy')
+    x = the_assign(find_def(tree, 'xy', c), 'ypos[iTrace, :]')
+    if ast.unparse(x.value) != 'np.dot(legarr.T, self.coeff[iTrace, :])':
+        raise Unrecognised('ypos in xy')
+    ff = find_def(tree, 'func_fit')
+    a = the_assign(ff, 'function_map')
+    d = dict_map(a.value, 'function_map')
+    for k in GNAME:
+        if k not in d or d.get('f' + k) != d[k]:
+            raise Unrecognised('function_map: %s and its alias f%s' % (k, k))
+    if sorted(d) != sorted(list(GNAME) + ['f' + k for k in GNAME]):
+        raise Unrecognised('function_map keys')
+    out.append(defn('g_function_map', ['name : gfunc'], 'gfunc',
+                    'match name with %s end' % ' | '.join('%s => %s' % (GNAME[k], d[k]) for k in GNAME), a.lineno))
+    x = the_assign(ff, 'legarr')
+    if ast.unparse(x.value) != 'function_map[function_name](x, ncfit)':
+        raise Unrecognised('legarr in func_fit')
+    # traceset2xy / xy2traceset are plain forwards
+    r = single_return(find_def(tree, 'traceset2xy'))
+    if ast.unparse(r) != 'tset.xy(xpos, ignore_jump)':
+        raise Unrecognised('traceset2xy')
+    r = single_return(find_def(tree, 'xy2traceset'))
+    if ast.unparse(r) != 'TraceSet(xpos, ypos, **kwargs)':
+        raise Unrecognised('xy2traceset')
 
 
 # ------------------------------------------------------------------ func_fit
@@ -417,6 +615,9 @@ Open Scope Q_scope.
 Definition gQlt_bool (a b : Q) : bool := negb (Qle_bool b a).
 Inductive polyfam := FamLegendre | FamChebyshevT.
 Inductive jumparg := ArgDoJump | ArgFalse | ArgTrue.
+Inductive gfunc := GLegendre | GChebyshev | GPoly | GChebSplit.
+Inductive extremum := ExtMin | ExtMax.
+Inductive fitweight := WTempivar | WMasked.
 (* np.ones((m, n)) : every row starts as 1 *)
 Definition g_fill : Q := 1.
 '''
@@ -438,10 +639,12 @@ def generate(repo):
         basis_split(find_def(t_trace, 'fchebyshev_split'), out)
         out.append('(* ---- TraceSet *)')
         traceset(t_trace, out)
+        out.append('(* ---- TraceSet.__init__ (defaults, weights, rejection loop), function tables *)')
+        traceset_init(t_trace, out)
         out.append('(* ---- func_fit *)')
         funcfit(t_trace, out)
         text = '\n'.join(out)
-        for need in ('g_leg_family', 'g_cheb_family', 'g_poly_rec', 'g_split_rec'):
+        for need in ('g_leg_family', 'g_cheb_family', 'g_poly_rec', 'g_split_rec', 'g_loop_continue', 'g_function_map'):
             if 'Definition %s ' % need not in text:
                 raise Unrecognised('%s not produced' % need)
         out.append('Definition trace_recognised : bool := true.')
